@@ -5,7 +5,7 @@
 
 """
 
-from collections.abc import Hashable, Iterable
+from collections.abc import Hashable, Iterable, Iterator
 from copy import copy, deepcopy
 from itertools import count
 from warnings import warn
@@ -690,6 +690,10 @@ class DiHypergraph:
                 else:
                     raise XGIError("Directed edge must be a list or tuple!")
 
+                if isinstance(tail, Iterator):  # one-shot iterables
+                    tail = list(tail)
+                if isinstance(head, Iterator):
+                    head = list(head)
                 try:
                     new_edge = {"in": set(tail), "out": set(head)}
                 except TypeError as e:
@@ -759,6 +763,10 @@ class DiHypergraph:
                 try:
                     tail = members[0]
                     head = members[1]
+                    if isinstance(tail, Iterator):  # one-shot iterables
+                        tail = list(tail)
+                    if isinstance(head, Iterator):
+                        head = list(head)
                     new_edge = {"in": set(tail), "out": set(head)}
                 except TypeError as e:
                     raise XGIError("Invalid ebunch format") from e
